@@ -215,6 +215,15 @@ let dispatch (name : string) (a : string array) : string =
      | OpPoint.OperatingPointError -> "OperatingPointError"
      | OpPoint.ValueError -> "ValueError"
      | OpPoint.IndexErr -> "IndexError") ^ " " ^ out_list "visited" vis
+  | "OpPoint.qimin" ->
+    (* n {flow}  m {q head}  rx rf fx ff *)
+    let n = get_int a in
+    let flows = Stdlib.List.init n (fun _ -> get_num a) in
+    let tbl = get_pairs a in
+    let rx = get_num a in let rf = get_num a in let fx = get_num a in let ff = get_num a in
+    let head q = (match Stdlib.List.find_opt (fun (x, _) -> x = q) tbl with Some (_, f) -> f | None -> raise (Py "Unvisited")) in
+    let (q, h) = OpPoint.qimin fN flows head rx rf fx ff in
+    out_num q ^ " " ^ out_num h
   | "Excel.load" ->
     let wb = get_workbook a in
     (match Excel.load fN wb with
